@@ -28,6 +28,10 @@ CHECKS["C08"] = {
 }
 
 HTTPRIG = ["pkg/object/httpserver", "harness/common/httpserver"]
+# order in which findSubscribers visits the children of a trie node: an explorer / harness choice
+TOPICINSTR = {"file": "pkg/object/mqttproxy/topic.go", "need_vrt": True,
+                "replace": [{"old": "for nodeLevel, nextNode := range node.nodes {",
+                             "new": "for _, nodeLevel := range zzvrt.StringKeys(node.nodes, \"findSubscribers\") {\n\t\t\t\tnextNode := node.nodes[nodeLevel]"}]}
 # the real HTTPServer runtime on an in-memory listener (shared by C17 and C11; the harness lives in harness/C17/httpruntime)
 RUNTIMEUNIT = {"name": "httpruntime", "pkg": "pkg/object/httpserver", "test": "TestVerifC17rt", "inject": [HTTPRIG, ["pkg/object/httpserver", "harness/C17/httpruntime"]],
                "instrument": [{"file": "pkg/object/httpserver/runtime.go", "add_imports": {"zzvnet": "vnet"},
@@ -111,7 +115,7 @@ CHECKS["C14"] = {
     "bounds": {"quick": "histories of <=3 operations (78-operation alphabet)", "thorough": "histories of <=4 operations"},
     "assumptions": ["session persistence (store goroutines) is not observed here (C16)"],
     "units": [
-        {"name": "mqttproxy", "pkg": "pkg/object/mqttproxy", "test": "TestVerifC14"},
+        {"name": "mqttproxy", "pkg": "pkg/object/mqttproxy", "test": "TestVerifC14", "instrument": [TOPICINSTR]},
     ],
 }
 
@@ -208,9 +212,7 @@ BROKERRIG = ["pkg/object/mqttproxy", "harness/common/mqttproxy"]
 BROKERINSTR = [{"file": "pkg/object/mqttproxy/broker.go", "imports": {"net": "vnet"}, "need_vrt": True,
                 "replace": [{"old": "for clientID, subQoS := range subscribers {",
                              "new": "for _, clientID := range zzvrt.StringKeys(subscribers, \"sendMsgToClient\") {\n\t\tsubQoS := subscribers[clientID]"}]},
-               {"file": "pkg/object/mqttproxy/topic.go", "need_vrt": True,
-                "replace": [{"old": "for nodeLevel, nextNode := range node.nodes {",
-                             "new": "for _, nodeLevel := range zzvrt.StringKeys(node.nodes, \"findSubscribers\") {\n\t\t\t\tnextNode := node.nodes[nodeLevel]"}]}]
+               TOPICINSTR]
 
 CHECKS["C15"] = {
     "level": "model_checking",
